@@ -15,7 +15,7 @@ EXPLANATION = ("fast_nonMarkov_SIS is executed symbolically with harness-owned u
                "distinct event times), with the attempting node recorded as infector; every non-initial infection is one of the "
                "attempts; nothing else changes a status and nothing is reported at/after tmax.")
 BOUNDS = {'quick': 'graphs K2, P3; all initial sets up to automorphism; <=3 infectious episodes per run; <=2 delays per (episode, neighbour)',
-          'thorough': 'adds K3, P4 (<=4 episodes), K2 with 3 delays per pair'}
+          'thorough': 'adds K3, P4 (<=3 episodes; 2 delays per pair from a single initial node), K2 with <=4 episodes'}
 ASSUMPTIONS = ['floats as reals', 'delay lists ascending and all delays < duration (documented precondition; ascending is what the code relies on)',
                'distinct event times for the infect-iff-susceptible obligation (statement\'s proviso)', 'L2 is not needed here (no randomness)']
 OPTS = {'quick': {'max_validate': 2, 'validate_every': 37, 'cfg_timeout': 250}, 'thorough': {'max_validate': 2, 'validate_every': 211, 'cfg_timeout': 1700}}
@@ -41,7 +41,7 @@ def configs(tier):
                     if not full and form != 'separate':
                         continue
                     out.append(dict(entry='fast_nonMarkov_SIS', graph=g, I0=I0, R0=[], full=full, form=form, tmax='sym',
-                                    max_infections=3 if tier == 'quick' else 4, delays_per_pair=2 if g == 'K2' or tier == 'thorough' else 1,
+                                    max_infections=3 if (tier == 'quick' or g != 'K2') else 4, delays_per_pair=2 if (g == 'K2' or (tier == 'thorough' and len(I0) == 1)) else 1,
                                     tags=[g, form, 'full' if full else 'plain']))
                     if g == 'K2' and full:
                         out.append(dict(entry='fast_nonMarkov_SIS', graph=g, I0=I0, R0=[], full=full, form=form, tmax='sym', fxn_args=True,
